@@ -36,17 +36,29 @@ CExt(x, w) == IF x.t = "s" THEN SignExt(x.v, w) ELSE ZeroExt(x.v, w)
 CWrap(t, n, w) == CV(t, FromInt(n, w))
 CKnown(x) == IF CIsVec(x) THEN Known(x.v) ELSE IF x.t = "bit" THEN x.v # 2 ELSE TRUE
 
-\* default (zero) value of a type  ty = [k, w]
+\* default (zero) value of a type  ty = [k, w]  (arrays: [k = "arr", w = length, el = element type]; enumerations: w literals)
+RECURSIVE CZero(_), CLit(_, _), CUnknown(_)
 CZero(ty) == CASE ty.k = "bit" -> CBit(0)
                [] ty.k \in {"bv", "u", "s"} -> CV(ty.k, Zeros(ty.w))
                [] ty.k = "bool" -> CV("bool", 0)
                [] ty.k = "int" -> CInt(0)
+               [] ty.k = "enum" -> CV("enum", 0)
+               [] ty.k = "arr" -> CV("arr", [i \in 1..ty.w |-> CZero(ty.el)])
 
-\* literal of type ty from an integer pattern (two's complement for negative values)
+\* literal of type ty from an integer pattern (two's complement for negative values); an enumeration literal is its
+\* position; the only array literal is Null (n = 0)
 CLit(ty, n) == CASE ty.k = "bit" -> CBit(n)
                 [] ty.k \in {"bv", "u", "s"} -> CV(ty.k, FromInt(n, ty.w))
                 [] ty.k = "bool" -> CV("bool", n)
                 [] ty.k = "int" -> CInt(n)
+                [] ty.k = "enum" -> CV("enum", n)
+                [] ty.k = "arr" -> CZero(ty)
+
+\* an object without default: "the value is unspecified until first assigned"
+CUnknown(ty) == CASE ty.k = "bit" -> CBit(2)
+                  [] ty.k = "arr" -> CV("arr", [i \in 1..ty.w |-> CUnknown(ty.el)])
+                  [] ty.k = "enum" -> CV("enum", 0)      \* (VHDL: the leftmost literal; generated designs give enums a default)
+                  [] OTHER -> CV(ty.k, AllU(ty.w))
 
 (* ---------------- arithmetic ---------------- *)
 \* "+,- : max width; * : sum of widths; truncdiv : dividend width; mod/rem : divisor width"
